@@ -10,6 +10,7 @@ import (
 
 var sanitizer = strings.NewReplacer( // TODO
 	"\n", ``,
+	"\r", ``,
 	"\t", ``,
 )
 
@@ -43,7 +44,7 @@ func ActionRawValues(currentWord string, meta common.Meta, values common.RawValu
 
 		vals[index] = richCompletion{
 			Value:       val.Value,
-			Display:     val.Display,
+			Display:     sanitizer.Replace(val.Display),
 			Description: val.TrimmedDescription(),
 			Style:       convertStyle("bg-default fg-default " + val.Style),
 		}
